@@ -2262,7 +2262,10 @@ impl Element for XmlElement {
                     .iter()
                     .any(|v| equal_qname(v.borrow().qname(), attr.qname()))
             {
-                items.push(XmlAttribute::new_from_declaration(attr, self.context()));
+                let attr = XmlAttribute::new_from_declaration(attr, self.context());
+                // the owner element gives the default its declared type and namespace
+                attr.borrow_mut().set_parent_id(Some(self.id()));
+                items.push(attr);
             }
         }
 
